@@ -9,7 +9,7 @@ import json
 
 from harness import core, lexer, tlc
 
-NEUTRAL = {"quoted-names", "placeholder", "boolean", "array", "interval", "string-value", "alias", "backslash-string", "json-value"}
+NEUTRAL = {"quoted-names", "placeholder", "boolean", "array", "interval", "string-value", "alias", "backslash-string", "json-value", "user-parameter"}
 JSONVAL = {"k": 'q"r', "p\\": ["it's", 1]}
 STRINGS = {"string-value": ["it's"], "backslash-string": ["C:\\new\\t%_x"], "json-value": [json.dumps(JSONVAL)]}
 BOOLMARK = "1"
@@ -41,6 +41,8 @@ def innermost(Qi, elem):
         return q.where(t.b == "it's")
     if elem == "alias":
         return Qi.from_(t).select(t.a.as_("al one"))
+    if elem == "user-parameter":
+        return q.where(t.b == P.Parameter(idx=1)).where(t.c == P.Parameter(idx=2))
     if elem == "backslash-string":
         return q.where(t.b == STRINGS[elem][0])
     if elem == "json-value":
@@ -81,10 +83,19 @@ def nest(Qo, Qi, q, construct):
     raise core.MachineryError(construct)
 
 
-def build(Qo, Qi, elem, nesting):
-    q = innermost(Qi, elem)
+def build(Qo, Qi, elem, nesting, cache=None):
+    """cache (mixed mode): the generic-built inner part is built ONCE per program and embedded in the outer statement of every dialect in turn,
+    so a literal / placeholder / quoting form remembered from an earlier dialect's rendering would reach the next one"""
+    if cache is not None and "inner" in cache:
+        q, start = cache["inner"], len(nesting) - 1
+    else:
+        q, start = innermost(Qi, elem), 0
     for k, c in enumerate(nesting):
+        if k < start:
+            continue
         last = k == len(nesting) - 1
+        if last and cache is not None and "inner" not in cache:
+            cache["inner"] = q
         Qc = Qo if last else Qi
         if c == "insert-select":
             if k != 0 or not hasattr(q, "into"):
@@ -125,12 +136,13 @@ def run(tier: str) -> int:
         rs = []
         param = p["elem"] == "placeholder"
         ok = True
+        shared = {}
         for d, Q in qc.items():
             for mode, Qi in (("native", Q), ("mixed", qc["generic"])):
                 if mode == "mixed" and d == "generic":
                     continue
                 try:
-                    obj = build(Q, Qi, p["elem"], p["nest"])
+                    obj = build(Q, Qi, p["elem"], p["nest"], cache=shared if mode == "mixed" and "top" not in p["nest"] else None)
                     if obj is None:
                         ok = False
                         break
